@@ -61,6 +61,7 @@ class HarnessResult:
         self.vcc = None
         self.log = ""
         self.playback = None          # text of concrete-playback unit test, if produced
+        self.playbacks = []           # all non-cover playback tests
 
     def as_dict(self):
         return {"harness": self.name, "status": self.status, "checks": self.checks_total,
@@ -129,7 +130,11 @@ def parse_kani_output(text, wanted):
     for m in re.finditer(r"Concrete playback unit test for `([^`]+)`:\n```\n(.*?)```", text, re.S):
         h = short(m.group(1))
         if h:
-            res[h].playback = m.group(2)
+            block = m.group(2)
+            if "Check for `cover`" in block:
+                continue
+            res[h].playbacks.append(block)
+            res[h].playback = res[h].playbacks[0]
     return res
 
 
@@ -195,7 +200,7 @@ def run_harnesses(overlay, harnesses, jobs=16, timeout_s=600, mem_gb=12, weights
 def playback_for(overlay, harness, timeout_s=600, mem_gb=12):
     """Re-run one failing harness with concrete playback and return the generated unit test text."""
     res, dt, out = run_group(overlay, [harness], timeout_s, mem_gb, playback=True)
-    return res[harness].playback, out
+    return res[harness].playbacks, out
 
 
 def native_replay(overlay, harness, playback_text, release=False, timeout_s=300):
@@ -211,13 +216,13 @@ def native_replay(overlay, harness, playback_text, release=False, timeout_s=300)
     with open(path, "a") as f:
         f.write("\n" + playback_text + "\n")
     try:
-        cmd = ["cargo", "kani", "playback", "-Z", "concrete-playback"]
+        cmd = ["cargo", "kani", "playback", "-Z", "concrete-playback", "--lib"]
         if release:
             cmd.append("--release")
         cmd += ["--", tname]
         p = subprocess.run(cmd, cwd=overlay, env=common.env_offline(), capture_output=True,
                            text=True, timeout=timeout_s)
-        out = p.stdout + p.stderr
+        out = p.stderr[-3000:] + "\n" + p.stdout
         reproduced = ("test result: FAILED" in out) or ("panicked at" in out)
         ran = "running 1 test" in out
         return (reproduced and ran), out
